@@ -2037,7 +2037,6 @@ func (mgr *Manager) detachConverterFromTag(tag *tag, tagName string, converter *
 	onlyThisTag := tag.Matches.Copy()
 	onlyThisTag.Sub(matchingStreams)
 	mgr.streamsToConvert[converter.Name()].Sub(onlyThisTag)
-	// TODO: invalidate all streams in the cache that are only matched by this tag.
 
 	if matchingStreams.IsZero() {
 		// no other tags use this converter, delete all results
@@ -2045,6 +2044,12 @@ func (mgr *Manager) detachConverterFromTag(tag *tag, tagName string, converter *
 			return err
 		}
 		mgr.converterOutputDropped()
+		return nil
+	}
+	// other tags keep the converter, only drop the results of streams that no tag asks for anymore.
+	// a cached stream would be converted again whenever an import changes it.
+	if dropped := converter.InvalidateChangedStreams(&onlyThisTag); !dropped.IsZero() {
+		mgr.converterOutputAdded(dropped)
 	}
 	return nil
 }
